@@ -229,6 +229,8 @@ pub enum Agg {
     Min,
     Max,
     Average,
+    /// an expression over two aggregations of the same column: `(sum x) + (count x)`
+    SumPlusCount,
 }
 
 impl Agg {
@@ -239,6 +241,7 @@ impl Agg {
             Agg::Min => "min",
             Agg::Max => "max",
             Agg::Average => "average",
+            Agg::SumPlusCount => "sum",
         }
     }
 }
@@ -813,7 +816,11 @@ pub fn pr_step(s: &Step, f: &Frame, prog: &Program) -> String {
                         (Agg::CountThis, _) | (_, None) => "this".to_string(),
                         (_, Some(i)) => f.refname(*i).unwrap_or_else(|| format!("<unref {i}>")),
                     };
-                    format!("{} = {} {}", pr_ident(a), g.name(), arg)
+                    if *g == Agg::SumPlusCount {
+                        format!("{} = (sum {arg}) + (count {arg})", pr_ident(a))
+                    } else {
+                        format!("{} = {} {}", pr_ident(a), g.name(), arg)
+                    }
                 })
                 .collect();
             format!("aggregate {{{}}}", v.join(", "))
@@ -1394,6 +1401,14 @@ fn agg_value(g: Agg, vals: &[V], nrows: usize) -> R<V> {
                 V::Null
             } else {
                 V::Real(nn.iter().filter_map(|v| v.as_f64()).sum::<f64>() / nn.len() as f64)
+            }
+        }
+        Agg::SumPlusCount => {
+            let s = agg_value(Agg::Sum, vals, nrows)?;
+            match s {
+                V::Int(i) => V::Int(i.checked_add(nrows as i64).ok_or_else(|| Undecided("integer overflow".into()))?),
+                V::Real(r) => V::Real(r + nrows as f64),
+                _ => V::Null,
             }
         }
     })
